@@ -259,6 +259,7 @@ def finish(report, tier, seed, t0, replay_only=None):
             "source_model": report.ctx.prog.stats(),
             "samples": samples,
             "notes": report.notes,
+            "selftest": getattr(report, "selftest", None),
             "exhaustive": True,
             "checker_cmd": "python3-vt check.py %s --tier %s" % (pid, tier),
             "trusted_base": ["python ast module", "sa/ (this checker)", "CPython semantics of the constructs listed in DESIGN.md section 3"],
